@@ -134,6 +134,17 @@ class Program:
 
     def lookup(self, callee):
         """callee text from a call terminator -> Fn or None"""
+        pm = re.match(r'^(.*)::(promoted\[\d+\])$', callee.strip())
+        if pm and '{closure' not in callee:
+            # a promoted constant belongs to the function it is named after: resolve the owner first
+            try:
+                owner = self.lookup(pm.group(1))
+            except MirSyntaxError:
+                owner = None
+            if owner is not None:
+                f = self.fns.get(owner.name + '::' + pm.group(2))
+                if f is not None:
+                    return f
         k = norm_callee(callee)
         cands = self.index.get(k)
         if not cands and k.startswith('<') and ' as ' in k:
